@@ -764,6 +764,12 @@ func (conv *converter) convertFilterExprImpl(e ast.Expr) ir.FilterExpr {
 
 		args := convertExprList(e.Args)
 		switch op.path {
+		case "Text.Matches", "Node.Is", "Node.Parent.Is", "Object.Is", "SinkType.Is",
+			"Type.Is", "Type.Underlying.Is", "Type.OfKind", "Type.Underlying.OfKind",
+			"Type.ConvertibleTo", "Type.AssignableTo", "Type.Implements", "Type.HasMethod":
+			arg0() // The loader reads Args[0] of these.
+		}
+		switch op.path {
 		case "Value.Int":
 			return ir.FilterExpr{Op: ir.FilterVarValueIntOp, Value: op.varName, Args: args}
 		case "Text.Matches":
